@@ -64,16 +64,18 @@ Record sim := mkSim {
   g_now : bool; g_timer : bool; g_cb : bool;   (* which seams are armed *)
   rel : bool;                                  (* the held loop has been released *)
   seen : nat;                                  (* executions already matched with observations *)
-  pend : option item                           (* an Enqueue past its stopped test, held under p.lock *)
+  pend : option item;                          (* an Enqueue past its stopped test, held under p.lock *)
+  lv : list item                               (* Spec.live_after of the client calls applied so far *)
 }.
 
 Definition with_st (m : sim) (s : state) : sim :=
-  mkSim s (g_now m) (g_timer m) (g_cb m) (rel m) (seen m) (pend m).
+  mkSim s (g_now m) (g_timer m) (g_cb m) (rel m) (seen m) (pend m) (lv m).
 
 Definition sim_eqb (a b : sim) : bool :=
   state_eqb (st a) (st b) && Bool.eqb (g_now a) (g_now b) && Bool.eqb (g_timer a) (g_timer b) &&
   Bool.eqb (g_cb a) (g_cb b) && Bool.eqb (rel a) (rel b) && Nat.eqb (seen a) (seen b) &&
-  match pend a, pend b with Some x, Some y => item_eqb x y | None, None => true | _, _ => false end.
+  match pend a, pend b with Some x, Some y => item_eqb x y | None, None => true | _, _ => false end &&
+  items_eqb (lv a) (lv b).
 
 Fixpoint dedupe (l : list sim) : list sim :=
   match l with
@@ -118,7 +120,7 @@ Definition succs (m : sim) : list sim :=
   match step Fixed s EvDone with Some s' => [with_st m s'] | None =>
   if held m then [] else
   if lock_wait m then [] else
-  let m' := if at_seam m then mkSim s (g_now m) (g_timer m) (g_cb m) false (seen m) (pend m) else m in
+  let m' := if at_seam m then mkSim s (g_now m) (g_timer m) (g_cb m) false (seen m) (pend m) (lv m) else m in
   match loop s with
   | LCallback _ => map (with_st m') (opt_list (step Fixed s EvCbRet))
   | LExecuting _ =>
@@ -139,6 +141,10 @@ Fixpoint settle (fuel : nat) (m : sim) : list sim :=
            end
   end.
 
+(* ... with the fuel that always suffices: every internal event decreases [measure]
+   (ProofsCheck.v: settle_m is never empty for lack of fuel and returns exactly rest points) *)
+Definition settle_m (m : sim) : list sim := settle (S (measure (st m))) m.
+
 (* the client call itself *)
 Definition apply_op (o : op) (m : sim) : list sim :=
   let s := st m in
@@ -154,7 +160,7 @@ Definition apply_op (o : op) (m : sim) : list sim :=
          one at a time, and no other client call while it is held (they would block) *)
       if stopped s then [m]
       else match pend m with
-           | None => [mkSim s (g_now m) (g_timer m) (g_cb m) (rel m) (seen m) (Some it)]
+           | None => [mkSim s (g_now m) (g_timer m) (g_cb m) (rel m) (seen m) (Some it) (lv m)]
            | Some _ => []
            end
   | OEnqGo _ =>
@@ -162,7 +168,7 @@ Definition apply_op (o : op) (m : sim) : list sim :=
       match pend m with
       | None => [m]
       | Some it =>
-          let m0 := mkSim s (g_now m) (g_timer m) (g_cb m) (rel m) (seen m) None in
+          let m0 := mkSim s (g_now m) (g_timer m) (g_cb m) (rel m) (seen m) None (lv m) in
           if head_has_key (ikey it) (q s)
           then map (fun p => with_st m0 (do_enqueue it p s)) (pick_range s)
           else [with_st m0 (do_enqueue it 0 s)]
@@ -180,21 +186,38 @@ Definition apply_op (o : op) (m : sim) : list sim :=
       | Some s' => [with_st m s']
       | None => match step Fixed s EvClose2 with Some s' => [with_st m s'] | None => [m] end
       end
-  | OGates a b c => [mkSim s a b c (rel m) (seen m) (pend m)]
-  | ORelease => [if held m then mkSim s (g_now m) (g_timer m) (g_cb m) true (seen m) (pend m) else m]
+  | OGates a b c => [mkSim s a b c (rel m) (seen m) (pend m) (lv m)]
+  | ORelease => [if held m then mkSim s (g_now m) (g_timer m) (g_cb m) true (seen m) (pend m) (lv m) else m]
   end.
+
+(* the client's own view of which instances are live (Spec.live_step), kept beside the state *)
+Definition new_lv (o : op) (m : sim) : list item :=
+  let blocked := match pend m with Some _ => true | None => false end in
+  match o with
+  | OEnq it => if blocked || stopped (st m) then lv m else live_step (lv m) (EvEnq it 0)
+  | ODeq k => if blocked || stopped (st m) then lv m else live_step (lv m) (EvDeq k 0)
+  | OEnqGo _ => match pend m with Some it => live_step (lv m) (EvEnq it 0) | None => lv m end
+  | _ => lv m
+  end.
+
+Definition set_lv (l : list item) (m : sim) : sim :=
+  mkSim (st m) (g_now m) (g_timer m) (g_cb m) (rel m) (seen m) (pend m) l.
+
+Definition apply_op_lv (o : op) (m : sim) : list sim := map (set_lv (new_lv o m)) (apply_op o m).
 
 (* a racing client call lands after any number of the loop's steps *)
 Fixpoint race (fuel : nat) (o : op) (m : sim) : list sim :=
   match fuel with
   | O => []
-  | S f => flat_map (settle fuel) (apply_op o m) ++ flat_map (race f o) (succs m)
+  | S f => flat_map settle_m (apply_op_lv o m) ++ flat_map (race f o) (succs m)
   end.
 
-Definition do_step (fuel : nat) (x : sstep) (m : sim) : list sim :=
+Definition do_step (x : sstep) (m : sim) : list sim :=
   match x with
-  | SOp o => flat_map (settle fuel) (apply_op o m)
-  | SRace t o => race fuel o (with_st m (set_clock (st m) (Z.max (clock (st m)) t)))
+  | SOp o => flat_map settle_m (apply_op_lv o m)
+  | SRace t o =>
+      let m0 := with_st m (set_clock (st m) (Z.max (clock (st m)) t)) in
+      race (S (measure (st m0))) o m0
   end.
 
 (* what the model says the harness sees at a resting point *)
@@ -223,25 +246,30 @@ Definition closed_count (s : state) : Z :=
 
 Definition pos_sim (m : sim) : Z := if lock_wait m then 5 else pos_of (st m).
 
+(* no live instance is lost: each is in the queue or in the log (Proofs: no_live_item_lost) *)
+Definition covered (m : sim) : bool :=
+  forallb (fun it => existsb (item_eqb it) (q (st m)) ||
+                     existsb (fun p : item * Z => item_eqb it (fst p)) (executed (st m))) (lv m).
+
 Definition matches (o : obs) (m : sim) : bool :=
-  zpairs_eqb (new_execs m) (o_execs o) && (pos_sim m =? o_pos o) && (dl_of (st m) =? o_dl o) &&
+  covered m && zpairs_eqb (new_execs m) (o_execs o) && (pos_sim m =? o_pos o) && (dl_of (st m) =? o_dl o) &&
   (closed_count (st m) =? o_closed o).
 
 Definition mark_seen (m : sim) : sim :=
-  mkSim (st m) (g_now m) (g_timer m) (g_cb m) (rel m) (length (executed (st m))) (pend m).
+  mkSim (st m) (g_now m) (g_timer m) (g_cb m) (rel m) (length (executed (st m))) (pend m) (lv m).
 
-Fixpoint sim_hist (fuel : nat) (h : hist) (ms : list sim) : list sim :=
+Fixpoint sim_hist (h : hist) (ms : list sim) : list sim :=
   match h with
   | [] => ms
   | (x, o) :: t =>
-      let ms' := dedupe (map mark_seen (filter (matches o) (flat_map (do_step fuel x) ms))) in
-      match ms' with [] => [] | _ => sim_hist fuel t ms' end
+      let ms' := dedupe (map mark_seen (filter (matches o) (flat_map (do_step x) ms))) in
+      match ms' with [] => [] | _ => sim_hist t ms' end
   end.
 
-Definition fuel_for (h : hist) : nat := 40 + 8 * length h.
+Definition sim0 (c0 : Z) : sim := mkSim (init_at c0) false false false false 0 None [].
 
 Definition model_agrees (c0 : Z) (h : hist) : bool :=
-  match sim_hist (fuel_for h) h [mkSim (init_at c0) false false false false 0 None] with
+  match sim_hist h [sim0 c0] with
   | [] => false
   | _ => true
   end.
